@@ -7,7 +7,7 @@
    differential runs (field-wise comparison in the harness), which is why C19 is claimed as partial. *)
 From Coq Require Import List Arith NArith Bool.
 From Coq.Strings Require Import Byte.
-From EZK Require Import Gen.Tables Lib.Bytes Lib.Num Lib.Utf8 Model.C19 Proofs.C19 Model.C19c Proofs.C19c.
+From EZK Require Import Model.Forms9 Proofs.Forms9 Gen.Tables Lib.Bytes Lib.Num Lib.Utf8 Model.C19 Proofs.C19 Model.C19c Proofs.C19c.
 Import ListNotations.
 Close Scope N_scope.
 Open Scope nat_scope.
@@ -95,3 +95,14 @@ Example C19_example_roundtrip :
                 [mkattr (B"tool") (Some (B"x:y"))] [m1; m2] in
   parse_text (fun _ _ => true) (print_text s) = Some s.
 Proof. vm_compute. reflexivity. Qed.
+
+(* what ends a token is ASCII white space: every byte of a non-ASCII character (>= 0x80) is a token byte, so a user name or protocol
+   token containing U+00A0 or U+3000 stays one token *)
+Theorem C19_ws_guard : sdp_ws_is_ascii = true.
+Proof. reflexivity. Qed.
+
+Theorem C19_non_ascii_bytes_are_token_bytes : forall b : byte, (128 <= Byte.to_nat b)%nat -> not_ws b = true.
+Proof. exact not_ws_high_byte. Qed.
+
+Theorem C19_non_ascii_bytes_are_not_ascii_space : forall b : byte, (128 <= Byte.to_nat b)%nat -> ascii_ws b = false.
+Proof. exact high_bytes_are_token_bytes. Qed.
